@@ -160,3 +160,40 @@ O(id="C11.accept_errors", props=["C11"], entry="harness_accept", reach=["transie
 O(id="C08.origin", props=["C08"], entry="harness_origin", reach=["af_unix", "v6_local"],
   functions=["is_localhost"], symbolic="first 32 bytes of the sockaddr_storage (family, port, address)",
   assumes=[], bounds="none", **_lio)
+
+# ------------------------------------------------------------------------------------------------ peer.c / timer / alloc leaves
+O(id="C06.log_line", props=["C06"], harness="harness/peer_leaves.c", entry="harness_log_line", reach=["long_name"], unwind=4,
+  functions=["log_peer_err", "log_peer_info", "get_peer_name"],
+  symbolic="length of the client-chosen peer name 0..130 (as the would-be length returned by snprintf), which log function, one arbitrary written position per formatting call",
+  stubs=["snprintf/vsnprintf: C99 contract stubs (write at most size bytes, return the would-be length)", "log_err/log_info: count calls"],
+  assumes=[], bounds="peer name <= 130 characters")
+O(id="C08.fresh_peer_groups", props=["C08", "C07", "C05", "C15"], harness="harness/peer_leaves.c", entry="harness_fresh_peer",
+  reach=["peer_created", "init_failed"], unwind=4, functions=["init_peer", "free_peer_resources", "get_number_of_peers"],
+  symbolic="initial (garbage) contents of the three group masks, locality flag, whether the routing table allocation fails",
+  stubs=["add_routing_table: may fail (symbolic)", "router/fetch/element teardown functions: empty (covered by C05 scenario obligations)"],
+  assumes=[], bounds="one peer")
+_tl = dict(harness="harness/timer_leaves.c", unwind=4,
+           stubs=["timerfd_create/timerfd_settime/socket_close/socket_read: symbolic results over a ghost descriptor",
+                  "event loop add/remove: record the registration, assert the loop object they receive",
+                  "create_error_response_from_request: returns a marker object"])
+O(id="C07.timer_lifecycle", props=["C07", "C14"], entry="harness_timer_lifecycle", reach=["init_failed", "destroyed"], defines=["NS_BITS=24"],
+  functions=["cjet_timer_init", "timer_start", "timer_cancel", "timer_read", "cjet_timer_destroy", "convert_timeoutns_to_itimerspec"],
+  symbolic="timerfd_create / loop add / settime failures, deadline in ns (< 2^24 here; all 2^64 in C14.itimerspec_full_range), expiry vs cancel", assumes=[], bounds="one timer", **_tl)
+O(id="C14.itimerspec_full_range", props=["C14"], entry="harness_itimerspec", backend="cvc5-int", record=False, defines=["NS_BITS=24"],
+  functions=["convert_timeoutns_to_itimerspec"], symbolic="deadline in ns (all 2^64 values)", assumes=[], bounds="none", **_tl)
+O(id="C14.timeout_value", props=["C14"], entry="harness_timeout_value", backend="z3", reach=["default_used", "not_a_number", "too_small", "too_large", "accepted"],
+  functions=["get_timeout_in_nsec", "convert_seconds_to_nsec"], flags=["--conversion-check"],
+  symbolic="presence, JSON type and double value of the timeout member (every non-NaN double incl. infinities), default",
+  assumes=["timeout value is not NaN (cJSON's number parser cannot produce one)"], bounds="none", **_tl)
+O(id="C14.timeout_huge", props=["C14", "C06"], entry="harness_timeout_huge", flags=["--conversion-check"],
+  functions=["get_timeout_in_nsec", "convert_seconds_to_nsec"], symbolic="double value of the timeout member (every non-NaN double)",
+  assumes=["timeout value is not NaN"], bounds="none", **_tl)
+for _uc, _nm in ((0, "malloc"), (1, "calloc")):
+    O(id="C07.alloc_cap_" + _nm, props=["C07", "C15"], harness="harness/alloc_leaves.c", entry="harness_alloc_cap", reach=["allocated", "refused"], unwind=3,
+      defines=["USE_CALLOC=1"] if _uc else [],
+      drop_flags=["--no-malloc-may-fail"], flags=["--malloc-may-fail", "--malloc-fail-null"],
+      functions=["cjet_" + _nm, "cjet_free", "cjet_get_alloc_size"],
+      symbolic="accounted total (any value <= cap), request size <= 2^32 (calloc: nmemb,size <= 255), whether the OS allocation fails",
+      stubs=["libc malloc/calloc: CBMC model, may return NULL"], assumes=["allocated_memory <= cap before the call (proved preserved)"],
+      bounds="malloc request sizes <= 2^32, calloc nmemb,size <= 255; larger sizes (size+8 / nmemb*size wrap) are outside the claim",
+      config={"CONFIG_MAX_HEAPSIZE_IN_KBYTE": 20480})
